@@ -138,7 +138,11 @@ def point_bytes_to_coord(point_bytes: bytes) -> Tuple[int, int]:
         ValueError: If point bytes are not valid
     """
     if point_is_decoded_bytes(point_bytes):
-        return int_decode(point_bytes[:_COORD_BYTE_LEN]), int_decode(point_bytes[_COORD_BYTE_LEN:])
+        x, y = int_decode(point_bytes[:_COORD_BYTE_LEN]), int_decode(point_bytes[_COORD_BYTE_LEN:])
+        # Coordinates shall be reduced, otherwise the encoded point (sign of x, bits of y) would be a different one
+        if x >= _Q or y >= _Q:
+            raise ValueError("Invalid point bytes (coordinates are not reduced)")
+        return x, y
     if point_is_encoded_bytes(point_bytes):
         return point_decode_no_check(point_bytes)
     raise ValueError("Invalid point bytes")
